@@ -1224,8 +1224,17 @@ class Interp:
         """iterate; a range with symbolic bounds is unrolled by deciding `i < stop` on the path each round
         (every path is finite because the budget of decisions is; no bound is assumed on the range itself)"""
         if isinstance(v, self.lib.SymRange):
-            if not (isinstance(v.step, int) and v.step >= 1):
-                raise OutOfReach("symbolic range with a non-positive or symbolic step")
+            if isinstance(v.step, int):
+                if v.step == 0:
+                    self.raise_("ValueError", "range() arg 3 must not be zero")
+                if v.step < 0:
+                    raise OutOfReach("symbolic range with a negative step")
+            else:
+                c = ctx()
+                if not c.branch(T(v.step) > 0):
+                    if c.branch(T(v.step) == 0):
+                        self.raise_("ValueError", "range() arg 3 must not be zero")
+                    raise OutOfReach("symbolic range with a negative step")
             return self._sym_range(v)
         return self.iter_list(v)
 
@@ -1235,7 +1244,7 @@ class Interp:
         while True:
             if k > 600:
                 raise OutOfReach("more than 600 iterations of a symbolic range")
-            cur = mk_int(T(v.start) + k * v.step)
+            cur = mk_int(T(v.start) + k * T(v.step))
             if not c.branch(T(cur) < T(v.stop)):
                 return
             yield cur
